@@ -249,6 +249,7 @@ func lapackProp(self, other, what string) *property {
 			res.Merge(flagx.RunSentinel(def, sc))
 			res.Merge(flagx.RunLenValue(def, sc))
 			res.Merge(swapx.RunLogicDup(def, sc))
+			res.Merge(flagx.RunQuickRHS(def, sc))
 			o := lapackArgs
 			a := args.Run(def, core.Scope{Patterns: []string{"./lapack/gonum"}, Files: sc.Files}, o)
 			a.Floor("entry_points", 50)
@@ -999,6 +1000,8 @@ func dump(argv []string) {
 		res = matargs.RunZeroLen(def)
 	case "logicdup":
 		res = swapx.RunLogicDup(def, core.Pkgs(argv[1:]...))
+	case "quickrhs":
+		res = flagx.RunQuickRHS(def, core.Pkgs(argv[1:]...))
 	case "workquery":
 		res = flagx.RunWorkQuery(def, core.Pkgs(argv[1:]...))
 	case "betascale":
